@@ -304,8 +304,8 @@ pub fn run(args: &Args) {
 
     let workers = 8; // fixed: the result must not depend on the machine
     for (entry, name, cases) in [
-        (Entry::Schema, "parse_schema", args.tier.pick(4000u32, 120_000)),
-        (Entry::Extensions, "parse_schema_extensions", args.tier.pick(4000u32, 120_000)),
+        (Entry::Schema, "parse_schema", args.tier.pick(12000u32, 240_000)),
+        (Entry::Extensions, "parse_schema_extensions", args.tier.pick(12000u32, 240_000)),
     ] {
         crate::c29::samples(&report, entry.name(), &case_strategy(entry, 4));
         let found = vcore::run_prop_parallel(
